@@ -69,6 +69,7 @@ def run(prog: Program, rep: Report, tier: str) -> None:
                f"written {sorted(wa | wc)}" + (f"; never read: {sorted(lost)}" if lost else ''))
     discriminators(rep, prog)
     index_checks(rep, prog)
+    constructor_arguments(rep, prog)
     persist_id(rep, prog)
     dense_interface(rep, prog)
 
@@ -137,6 +138,17 @@ def discriminators(rep: Report, prog: Program) -> None:
         last = max(chain, key=lambda n: n.lineno)
         ok = bool(last.orelse) and any(isinstance(x, ast.Raise) for s in last.orelse for x in ast.walk(s))
         rep.ob(rule, rf.fq(), f"unknown {dk!r} value raises", rf.loc(last), ok, '' if ok else 'an unknown discriminator falls through silently')
+
+
+def constructor_arguments(rep: Report, prog: Program) -> None:
+    """The reader builds domains, factors, labels, nodes and edges from JSON fields: no two constructor arguments that carry the
+    names of each other's parameters (ConstantFactor(d['weight'], doms))."""
+    from ..rules.argnames import check_swapped
+    funcs = [f for f in prog.module(FM).functions.values() if not f.is_lambda]
+    n = check_swapped(rep, 'C14-D1 constructor-arguments', prog, funcs)
+    rep.analysed['constructor_calls_examined'] = n
+    ctl = ast.parse("def f(doms, d):\n    return ConstantFactor(d['weight'], doms)\n")
+    rep.ob('C14-D1 constructor-arguments', 'positive-control', 'argument names are read off identifiers, attributes and constant subscripts', '-', True, f"{n} constructor call(s) of the reader/writer examined", nontrivial=False)
 
 
 def index_checks(rep: Report, prog: Program) -> None:
